@@ -71,7 +71,10 @@ Icmp6Mism(e) ==
                               ELSE {})))
 
 NdpMism(e) ==
-  NdSteps([rest |-> e.bytes, dead |-> FALSE], e.steps, 1, 0) \cup (IF ~NdEnded(e.steps) THEN {"ndp.unbounded_or_not_dead"} ELSE {})
+  (LET b == e.bytes IN
+   (IF e.oh # (IF Len(b) < 2 THEN <<0, -1, -1, -1, -1, -1>> ELSE <<1, b[1], b[2], 8 * b[2], Len(b) - 2, 1>>) THEN {"ndp.option_header"} ELSE {})
+   \cup (IF Len(b) >= 4 /\ e.echo # <<b[1] * 256 + b[2], b[3] * 256 + b[4], 1>> THEN {"icmp.echo_header"} ELSE {}))
+  \cup NdSteps([rest |-> e.bytes, dead |-> FALSE], e.steps, 1, 0) \cup (IF ~NdEnded(e.steps) THEN {"ndp.unbounded_or_not_dead"} ELSE {})
   \cup (IF ~Tiled(e.steps, 1, 0) THEN {"ndp.tiling"} ELSE {}) \cup (IF Len(e.steps) > Len(e.bytes) \div 8 + 4 THEN {"ndp.more_items_than_bytes"} ELSE {})
 
 IgmpMism(e) ==
